@@ -176,6 +176,15 @@ func (t *e1Target) Evaluate(engine Engine) (err error) {
 		}
 		if cyc {
 			w.cycHanded = true
+			// a cyclic-dependency error is the actual outcome of a request only if one of
+			// the requested targets depends, directly or not, on the requester
+			closes := false
+			for _, d := range b {
+				closes = closes || w.sc.reaches(d, i)
+			}
+			if !closes {
+				w.flag("wrong-dep-outcome", "%s was handed a cyclic-dependency error for %v, none of which depends on %s", label(i), labels, label(i))
+			}
 			depErr = &e1Err{"cyclic dependency below " + label(i)}
 			continue
 		}
@@ -228,6 +237,28 @@ func (sc *e1Scenario) reach() []bool {
 	}
 	visit(0)
 	return seen
+}
+
+// reaches: there is a dependency path (through labels that load) from `from` to `to`.
+func (sc *e1Scenario) reaches(from, to int) bool {
+	seen := make([]bool, sc.N)
+	var visit func(i int) bool
+	visit = func(i int) bool {
+		if i == to {
+			return true
+		}
+		if seen[i] || sc.LoadErr[i] {
+			return false
+		}
+		seen[i] = true
+		for _, d := range sc.Deps[i] {
+			if visit(d) {
+				return true
+			}
+		}
+		return false
+	}
+	return visit(from)
 }
 
 func (sc *e1Scenario) cyclic(reach []bool) bool {
